@@ -102,7 +102,16 @@ type item struct {
 }
 
 // runItems executes the items on `workers` core nodes; items of one receiver state stay together.
-func runItems(ctx context.Context, w *World, st *States, items []item, workers int) ([]Line, [][]byte, error) {
+type warmLine struct {
+	line Line
+	data []byte
+	it   item
+}
+
+// runItems returns the lines in item order, followed by the warm-up deliveries of the history
+// family (the returned item slice is extended accordingly).
+func runItems(ctx context.Context, w *World, st *States, items []item, workers int) ([]item, []Line, [][]byte, error) {
+	var warm []warmLine
 	lines := make([]Line, len(items))
 	datas := make([][]byte, len(items))
 	details := make([]string, len(items))
@@ -187,12 +196,45 @@ func runItems(ctx context.Context, w *World, st *States, items []item, workers i
 					return
 				}
 				for _, i := range j.idx {
+					if cs := items[i].cc.Case; cs.Hist == "stale" && cs.Warm != nil {
+						// history family: fresh handler objects, the warm-up delivery under the opposite key
+						// material, then the database of the restarted key generation, then the case
+						if node, err = renew(j.k.Fl); err != nil {
+							fail(err)
+							return
+						}
+						wc := &Concrete{Case: Case{Fl: cs.Fl, M: *cs.Warm, Recv: cs.Recv, Hist: "fresh"}, Idents: map[int][]byte{}, Salt: "w"}
+						wc.Case.Recv.EonKey = "other"
+						if cs.Recv.EonKey == "other" {
+							wc.Case.Recv.EonKey = "main"
+						}
+						wk := keyFor(wc.Case)
+						wdb, err := st.Get(ctx, wk)
+						if err != nil {
+							fail(err)
+							return
+						}
+						node.SetState(wk, wdb)
+						wd := w.Deliver(wc)
+						wo := node.Observe(ctx, wd, w, classifyCore)
+						mu.Lock()
+						warm = append(warm, warmLine{line: Line{C: wc.Case, O: wo, Cls: "warmup"}, data: wd.Data, it: item{cc: wc, cls: "warmup"}})
+						mu.Unlock()
+						node.pre = nil // the database is replaced under the same handler objects
+					}
 					node.SetState(j.k, db)
 					d := w.Deliver(items[i].cc)
 					o := node.Observe(ctx, d, w, classifyCore)
 					lines[i] = Line{C: items[i].cc.Case, O: o, Cls: items[i].cls}
+					lines[i].C.Warm = nil
 					datas[i] = d.Data
 					details[i] = o.Detail
+					if items[i].cc.Case.Hist == "stale" { // do not let these handler objects serve other cases
+						if node, err = renew(j.k.Fl); err != nil {
+							fail(err)
+							return
+						}
+					}
 					if o.V == "timeout" || o.Herr == "timeout" || o.V == "panic" || o.Herr == "panic" {
 						// the pool may have lost a connection to the abandoned / crashed call: new node
 						node, err = renew(j.k.Fl)
@@ -226,7 +268,13 @@ func runItems(ctx context.Context, w *World, st *States, items []item, workers i
 	for i := range lines {
 		lines[i].O.Detail = details[i]
 	}
-	return lines, datas, firstErr
+	sort.Slice(warm, func(a, b int) bool { return warm[a].line.C.Key() < warm[b].line.C.Key() })
+	for _, wl := range warm {
+		items = append(items, wl.it)
+		lines = append(lines, wl.line)
+		datas = append(datas, wl.data)
+	}
+	return items, lines, datas, firstErr
 }
 
 type vResult struct {
@@ -386,6 +434,12 @@ func (r *ReplayCC) concrete() *Concrete {
 	if cc.Case.Fl == "" {
 		cc.Case.Fl = "core"
 	}
+	if cc.Case.Hist == "" {
+		cc.Case.Hist = "fresh"
+	}
+	if cc.Case.Recv.EonKey == "" {
+		cc.Case.Recv.EonKey = "main"
+	}
 	return cc
 }
 
@@ -474,7 +528,7 @@ func CheckC04(c *core.Ctx) int {
 		workers = 12
 	}
 	t0 := time.Now()
-	lines, datas, err := runItems(ctx, w, st, items, workers)
+	items, lines, datas, err := runItems(ctx, w, st, items, workers)
 	if err != nil {
 		fmt.Println("INCONCLUSIVE:", err)
 		return core.ExitInconclusive
@@ -641,7 +695,7 @@ func replayC04(c *core.Ctx) int {
 	ctx := context.Background()
 	w := NewWorld(rf.Seed)
 	st := NewStates(w)
-	lines, datas, err := runItems(ctx, w, st, []item{{cc: rf.Conc.concrete(), cls: rf.Cls}}, 1)
+	_, lines, datas, err := runItems(ctx, w, st, []item{{cc: rf.Conc.concrete(), cls: rf.Cls}}, 1)
 	if err != nil {
 		fmt.Println("INCONCLUSIVE:", err)
 		return core.ExitInconclusive
